@@ -44,6 +44,22 @@ const ATOMS: [(&str, &str); 30] = [
 /// atoms only meaningful inside a scope that binds them
 const SCOPED_ATOMS: [(&str, &str); 6] = [("node-var", "nd"), ("edge-var", "ed"), ("tuple-var", "tp"), ("iter-int", "k"), ("iter-elem", "v"), ("shadowed-const", "A")];
 
+/// the scope every single-hole template is wrapped into (family T5): binds one variable of every kind that
+/// only exists inside an iteration
+const WRAP_SCOPE: &str = "wnd in nodes(G), wed in edges(G), (weu, wev, wew) in edges(G), wtp in enumerate(A), (wse, wsi) in enumerate(S), wbv in BS, wrow in M, wsk in 0..2, wsv in A";
+const WRAP_ATOMS: [(&str, &str); 10] = [
+    ("node-var", "wnd"),
+    ("edge-var", "wed"),
+    ("edge-endpoint", "weu"),
+    ("edge-weight", "wew"),
+    ("tuple-var", "wtp"),
+    ("string-elem", "wse"),
+    ("bool-elem", "wbv"),
+    ("row-elem", "wrow"),
+    ("iter-int", "wsk"),
+    ("iter-elem", "wsv"),
+];
+
 /// single-hole templates: (name, objective, constraints, extra-define). {H} is the hole.
 const TEMPLATES: [(&str, &str, &str, &str); 66] = [
     ("objective-operand", "min {H}", "x >= 0", ""),
@@ -225,9 +241,10 @@ fn atom_class(atom: &str) -> String {
             "float" | "float-const" | "infinity" => "non-integer-number",
             "neg-int" => "negative-integer",
             "int" | "zero" | "int-const" | "array-element" | "len-call" | "range-expr" | "iter-int" | "iter-elem" => "integer",
-            "string" | "string-const" | "node-var" => "string-or-node",
-            "bool" | "bool-const" => "boolean",
-            "num-array" | "num-array-literal" | "empty-array" | "array-row" | "shadowed-const" => "number-array",
+            "edge-weight" => "non-integer-number",
+            "string" | "string-const" | "node-var" | "edge-endpoint" | "string-elem" => "string-or-node",
+            "bool" | "bool-const" | "bool-elem" => "boolean",
+            "num-array" | "num-array-literal" | "empty-array" | "array-row" | "shadowed-const" | "row-elem" => "number-array",
             "nested-array" | "string-array" | "bool-array" => "other-array",
             "edges-call" | "enumerate-call" => "tuple-iterable",
             "nodes-call" => "node-iterable",
@@ -315,7 +332,7 @@ fn check_program(src: &str, template: &str, atoms: &str, l: &mut Local) {
 pub fn run(mut run: Run) -> ! {
     crate::core::silence_panics();
     let quick = run.quick();
-    run.rule = "every (template x atom) program: 66 single-hole templates covering every operand, block, scoped-block body, iterator, range end, destructuring, index, function-argument, declaration-bound, declaration-iterator, constraint-iterator, constraint-name and constant position x 30 typed atoms (numbers, booleans, strings, arrays of every element kind, graph, constants, calls, domain variables, undeclared names); 8 scoped templates x (30 + 6 scoped atoms: node, edge, tuple, iterator, element, shadowed constant); 22 wrong-arity calls; thorough: 12 two-hole templates x all atom pairs; distinct = accepted program texts; non-trivial = accepted by the type checker".into();
+    run.rule = "every (template x atom) program: 66 single-hole templates covering every operand, block, scoped-block body, iterator, range end, destructuring, index, function-argument, declaration-bound, declaration-iterator, constraint-iterator, constraint-name and constant position x 30 typed atoms (numbers, booleans, strings, arrays of every element kind, graph, constants, calls, domain variables, undeclared names); 8 scoped templates x (30 + 6 scoped atoms: node, edge, tuple, iterator, element, shadowed constant); the 66 single-hole templates again wrapped in an iteration scope x 10 iteration-only atoms (node, edge, edge endpoint, edge weight, enumerate tuple, string element, boolean element, matrix row, range variable, array element); 22 wrong-arity calls; thorough: 12 two-hole templates x all atom pairs; distinct = accepted program texts; non-trivial = accepted by the type checker".into();
     run.assume("type-class error kinds: UndeclaredVariable, WrongArgument, WrongExpectedArgument, WrongFunctionSignature, WrongNumberOfArguments, NonExistentFunction, Unspreadable, SpreadError, UnOpError, BinOpError unless both operands are numeric kinds (division by zero / overflow), Other(domain variable used as a value), Other(block arity)");
     run.family("T1-single-hole", (TEMPLATES.len() * ATOMS.len()) as u64, |i, l| {
         let (tname, obj, cons, extra) = TEMPLATES[i as usize / ATOMS.len()];
@@ -329,6 +346,25 @@ pub fn run(mut run: Run) -> ! {
         let (tname, obj, cons) = SCOPED_TEMPLATES[i as usize / n_sc];
         let (aname, atext) = all_scoped[i as usize % n_sc];
         let src = program(&obj.replace("{H}", atext), &cons.replace("{H}", atext), "");
+        check_program(&src, tname, aname, l);
+    });
+    // every single-hole template again, inside a scope that binds iteration-only kinds
+    run.family("T5-wrapped-in-scope", (TEMPLATES.len() * WRAP_ATOMS.len()) as u64, |i, l| {
+        let (tname, obj, cons, extra) = TEMPLATES[i as usize / WRAP_ATOMS.len()];
+        let (aname, atext) = WRAP_ATOMS[i as usize % WRAP_ATOMS.len()];
+        if extra.contains("{H}") {
+            // the hole is in a declaration or a constant: no iteration scope can reach it
+            l.count("wrap-not-applicable");
+            return;
+        }
+        let (obj, cons) = if obj.contains("{H}") {
+            (format!("min sum({WRAP_SCOPE}) {{ {} }}", obj.strip_prefix("min ").unwrap().replace("{H}", atext)), cons.to_string())
+        } else if let Some((head, tail)) = cons.split_once(" for ") {
+            (obj.to_string(), format!("{} for {WRAP_SCOPE}, {}", head.replace("{H}", atext), tail.replace("{H}", atext)))
+        } else {
+            (obj.to_string(), format!("{} for {WRAP_SCOPE}", cons.replace("{H}", atext)))
+        };
+        let src = program(&obj, &cons, extra);
         check_program(&src, tname, aname, l);
     });
     run.family("T3-arity", ARITY.len() as u64, |i, l| {
